@@ -248,6 +248,8 @@ class SimConnection(Connection):
 
     def push(self, data):
         self.outbox.append(bytes(data))
+        if self.is_closed:
+            return          # the reactors queue the bytes but the closed socket never writes them
         if self.node is not None:
             self.node.on_bytes(self, bytes(data))
 
